@@ -43,7 +43,7 @@ ANCHORS = [
 ]
 BUDGET = {"quick": 400, "thorough": 3600}
 SUBJECTS = ["ImageBatch", "FlowFields/cube", "FlowFields/cube_corners", "FlowFields/grid", "FlowFields/world", "Image", "FlowField"]
-N_PROGRAMS = {"quick": 400, "thorough": 40000}
+N_PROGRAMS = {"quick": 400, "thorough": 160000}
 
 
 def ops():
